@@ -270,6 +270,10 @@ func (e *specEnv) ev(ex SExpr) Value {
 			// goal: the facts are hypotheses
 			guards = append(guards, mine...)
 		}
+		if e.pol < 0 && !ex.Forall {
+			// assumed existential: the (always true) facts also hold of the witness
+			guards = append(guards, mine...)
+		}
 		if ex.Forall {
 			return Value{T: boolT, Term: c.Forall(bound, c.Implies(c.And(guards...), body))}
 		}
@@ -810,13 +814,5 @@ func (e *specEnv) evalModTargets(ex SExpr) []modTarget {
 }
 
 func termUses(t, v *Term) bool {
-	if t == v {
-		return true
-	}
-	for _, a := range t.Args {
-		if termUses(a, v) {
-			return true
-		}
-	}
-	return false
+	return t.freeBVars()[v]
 }
